@@ -27,6 +27,53 @@ def call_of(state):
     return {k: v for k, v in state['last'].items()}
 
 
+def builder_options(ck, d, tier):
+    """spec/BuilderOptions.tla: the object-model options of compile() against the compiled-grammar cache and the registry of synthesized
+    classes.  TLC proves the required design and refutes the others; the call histories of the design as coded (options in the cache
+    key, a class registry that keeps the first bases it saw: KF-C10-5) are replayed in fresh interpreters; every response must be the
+    ideal one, or - under the listed finding only - exactly what that design predicts."""
+    from ..apireplay import run_builder_history
+
+    def cfg(key, reg, maxcalls, props=True):
+        return ('CONSTANTS Opts = {"plain", "A", "B"}\n' + f'KeyHasOptions = {key}\nRegistryPerBases = {reg}\nMaxCalls = {maxcalls}\nMaxHandles = 2\n'
+                'SPECIFICATION Spec\n' + ('INVARIANT HistoryIndependent\nINVARIANT ModelStable\n' if props else '') + 'CHECK_DEADLOCK FALSE\n')
+    c = os.path.join(d, 'bo.cfg')
+    open(c, 'w').write(cfg('TRUE', 'TRUE', 4 if tier == 'quick' else 5))
+    r = tlc.run_tlc('BuilderOptions', cfg=c, timeout=900)
+    ck.add_tlc(r, 'BuilderOptions (required design)')
+    if r.violated:
+        ck.violation({'kind': 'history', 'inputs': {'spec': 'BuilderOptions (required design)'}, 'expected': 'HistoryIndependent, ModelStable',
+                      'observed': r.violated, 'trace': r.trace[:40]}, key='bo' + str(r.violated))
+    for key, reg in (('FALSE', 'FALSE'), ('TRUE', 'FALSE'), ('FALSE', 'TRUE')):
+        open(c, 'w').write(cfg(key, reg, 3))
+        rb = tlc.run_tlc('BuilderOptions', cfg=c, timeout=600)
+        ck.notes.setdefault('builder_option_designs_refuted', {})[f'KeyHasOptions={key} RegistryPerBases={reg}'] = rb.violated
+        if not rb.violated:
+            raise tlc.MachineryError(f'BuilderOptions: the design KeyHasOptions={key} RegistryPerBases={reg} is not refuted (vacuous model)')
+    open(c, 'w').write(cfg('TRUE', 'FALSE', 3 if tier == 'quick' else 4, props=False))
+    dot = os.path.join(d, 'gbo')
+    tlc.run_tlc('BuilderOptions', cfg=c, workers=1, dump_dot=dot, timeout=900)
+    g = Graph(dot + '.dot')
+    paths = g.edge_cover_paths(is_final=lambda n: True)
+    ck.notes['builder_option_graph'] = {'states': len(g.states), 'edges': sum(1 for _ in g.edges()), 'histories': len(paths)}
+    cases = [{'path': [[lbl, g.states[n]] for lbl, n in pp[1]]} for pp in paths]
+    res = pmap(run_builder_history, cases, procs=16, chunk=1, recycle=1)
+    for cs, out in zip(cases, res):
+        for i, o in enumerate(out):
+            ck.count(evaluations=1, traces=1, nontrivial=1 if i else 0)
+            if o['observed'] == o['ideal']:
+                continue
+            hist = [x['call'] for x in out[:i + 1]]
+            what = f"history {json.dumps(hist)}: the node derives from {o['observed']!r}, the call alone gives {o['ideal']!r}"
+            if o['observed'] == o['as_coded'] and ck.known('KF-C10-5', what):
+                continue
+            ck.violation({'kind': 'history', 'inputs': {'history': hist, 'grammar': "start::Thing = x:'a' ;",
+                                                        'options': 'plain: asmodel=True; A / B: basetype=BaseA / BaseB'},
+                          'expected': {'ideal': o['ideal'], 'design as coded (KF-C10-5)': o['as_coded']}, 'observed': o['observed'],
+                          'why': 'the object-model options of an earlier call decide what this call builds', 'spec': 'BuilderOptions!HistoryIndependent'},
+                         key='bo' + str(o['call']) + o['observed'] + str(o['ideal']))
+
+
 def thread_share(ck, d, tier):
     """spec/ThreadShare.tla: the shared-state steps of threads parsing with one freshly compiled asmodel model.  TLC proves the
     design as required (get-or-create class registry, serialized optimized()), refutes the two racy designs, and the behaviours of
@@ -221,6 +268,8 @@ def run(tier):
                               'expected': b['expected'], 'observed': b['observed'],
                               'why': 'a generated parser object answers differently after an earlier call', 'spec': 'ApiHistory!HistoryIndependent'},
                              key='genpair' + b['first'] + b['second'])
+        # the object-model options of compile() against the cache and the class registry
+        builder_options(ck, d, tier)
         # threads on one shared model: the shared-state steps, model-checked and forced onto the real code
         thread_share(ck, d, tier)
         # threads on one shared model, free running
